@@ -265,6 +265,9 @@ class GraphSystem(System):
                 ops.append((('remove_node_stale',), 1))
             ops.append((('analyse',), 0))
             ops.append((('prune',), 0))
+            # labels are public attributes: relabel a step by hand (no full recalculation), pruning must follow it
+            for n in [x for x in g.nodes if x.type in ('or', 'and') and x.is_viable][:1]:
+                ops.append((('relabel', n.id), 0))
             ops.append((('deepcopy',), 0))
             ops.append((('saveload', 'json', True), 0))
             ops.append((('saveload', 'json', False), 0))
@@ -434,6 +437,18 @@ class GraphSystem(System):
                 if i in after['nodes']:
                     n['is_viable'] = after['nodes'][i]['is_viable']
                     n['is_necessary'] = after['nodes'][i]['is_necessary']
+            return o
+        return 'must_succeed', thunk, expect, ''
+
+    def op_relabel(self, c, op):
+        n = next(x for x in c.g.nodes if x.id == op[1])
+
+        def thunk():
+            n.is_viable = False
+
+        def expect(before, after):
+            o = copy.deepcopy(before)
+            o['nodes'][op[1]]['is_viable'] = False
             return o
         return 'must_succeed', thunk, expect, ''
 
